@@ -9,7 +9,7 @@
  *     strcoll strxfrm strcasecmp strncasecmp strcasestr wcscoll  tolower toupper (functions) __ctype_b_loc
  *     __ctype_tolower_loc __ctype_toupper_loc (what the isalpha()/tolower() macros expand to)  setlocale newlocale
  *     uselocale localeconv nl_langinfo  localtime localtime_r mktime tzset strftime ctime ctime_r  umask getcwd  getenv
- *     secure_getenv
+ *     secure_getenv  fnmatch (gensquashfs: `glob … -name` of a pack file, `[glob]` lines of a sort file)
  *
  *   with C02_LOCALE_HOSTILE=1: a fake locale "xx_XX.HOSTILE" becomes active for a category as soon as the program calls
  *   setlocale(category, "") or setlocale(category, <anything but "C"/"POSIX">) — exactly when a real environment with
@@ -18,6 +18,8 @@
  *     strcasecmp & co      Turkish folding: 'I' and 'i' are different letters (I↔ı 0xFD, İ 0xDD↔i), Latin-5 high bytes fold
  *     ctype tables         bytes 0xC0…0xFF are letters; tolower('I') = 0xFD, toupper('i') = 0xDD
  *     localeconv           decimal_point ",", thousands_sep "."
+ *     fnmatch              matches case-insensitively (Turkish folding, Latin-5 high bytes are letters): `[a-z]*` matches "Zeta",
+ *                          ranges like [a-Z] / [A-z] cover all letters, as they do in a collating locale
  *     localtime & co       a time zone 13 h 45 min east of UTC with DST (independent of setlocale: TZ is always "set")
  *
  * The image must not change under this library; the calls recorded say which locale-sensitive functions the packers use
@@ -26,6 +28,7 @@
 #define _GNU_SOURCE
 #include <ctype.h>
 #include <dlfcn.h>
+#include <fnmatch.h>
 #include <langinfo.h>
 #include <locale.h>
 #include <stdio.h>
@@ -40,10 +43,10 @@ extern char **environ;
 
 enum { F_STRCOLL, F_STRXFRM, F_STRCASECMP, F_STRNCASECMP, F_STRCASESTR, F_WCSCOLL, F_TOLOWER, F_TOUPPER, F_CTYPE_B, F_CTYPE_LOWER,
        F_CTYPE_UPPER, F_SETLOCALE, F_NEWLOCALE, F_USELOCALE, F_LOCALECONV, F_NL_LANGINFO, F_LOCALTIME, F_LOCALTIME_R, F_MKTIME,
-       F_TZSET, F_STRFTIME, F_CTIME, F_UMASK, F_GETCWD, F_GETENV, F_COUNT };
+       F_TZSET, F_STRFTIME, F_CTIME, F_UMASK, F_GETCWD, F_GETENV, F_FNMATCH, F_COUNT };
 static const char *fname[F_COUNT] = { "strcoll", "strxfrm", "strcasecmp", "strncasecmp", "strcasestr", "wcscoll", "tolower", "toupper",
 	"ctype_b_loc", "ctype_tolower_loc", "ctype_toupper_loc", "setlocale", "newlocale", "uselocale", "localeconv", "nl_langinfo",
-	"localtime", "localtime_r", "mktime", "tzset", "strftime", "ctime", "umask", "getcwd", "getenv" };
+	"localtime", "localtime_r", "mktime", "tzset", "strftime", "ctime", "umask", "getcwd", "getenv", "fnmatch" };
 static unsigned long cnt[F_COUNT];
 static int hostile = -1, act_collate, act_ctype, act_numeric;
 static char setlog[512], envlog[1024];
@@ -140,6 +143,33 @@ static int h_casecmp(const char *a, const char *b, size_t n, int bounded)
 }
 
 #define REAL(type, name) static __typeof__(type) real; if (!real) real = (__typeof__(type))dlsym(RTLD_NEXT, name)
+
+/* fnmatch in the hostile locale: pattern and string are folded with the hostile case mapping (character class names
+ * `[:upper:]` are left alone), then matched ignoring case */
+static void h_fold(char *dst, size_t cap, const char *src, int is_pattern)
+{
+	size_t i = 0;
+	int in_class = 0;
+	for (; src[0] && i + 1 < cap; ++src) {
+		if (is_pattern && src[0] == '[' && src[1] == ':') in_class = 1;
+		else if (is_pattern && in_class && src[0] == ':' && src[1] == ']') in_class = 0;
+		if (is_pattern && src[0] == '\\' && src[1]) { dst[i++] = *src++; if (i + 1 >= cap) break; dst[i++] = (char)h_lower((unsigned char)src[0]); continue; }
+		dst[i++] = in_class ? src[0] : (char)h_lower((unsigned char)src[0]);
+	}
+	dst[i] = 0;
+}
+int fnmatch(const char *pattern, const char *string, int flags)
+{
+	REAL(int (*)(const char *, const char *, int), "fnmatch");
+	++cnt[F_FNMATCH];
+	if (is_hostile() && (act_collate || act_ctype) && pattern && string && strlen(pattern) < 4000 && strlen(string) < 4000) {
+		char p[4096], s[4096];
+		h_fold(p, sizeof p, pattern, 1);
+		h_fold(s, sizeof s, string, 0);
+		return real(p, s, flags | FNM_CASEFOLD);
+	}
+	return real(pattern, string, flags);
+}
 
 int strcoll(const char *a, const char *b)
 {
